@@ -50,7 +50,7 @@ CHECKS = {
             'operators, and of all small expression trees with every subset of leaves replaced by error values, against '
             'a reference error algebra; ' + K3,
             'Every way an error value can meet an operator (11 operators, either side, both sides with different codes, '
-            'unary minus, two/three nesting levels) is enumerated for 40 producers of five kinds and observed at the top '
+            'unary minus, two/three nesting levels, and with 11 kinds of OTHER operand - non-numeric, empty and numeric text, logical, blank, float, array, date text, calls) is enumerated for 75 producers (built-in, literal, host variable/cell, custom function returning or raising shared and host-made error objects) and observed at the top '
             'level and through all six trapping functions; trees with every error/non-error leaf assignment check the '
             'left-most-wins rule at depth.',
             'Trusted: the reference algebra (operators strict, left operand first, literal aborts). Which code a Python '
@@ -95,7 +95,7 @@ CHECKS = {
             'Every list of length <= 4 over {-3,-1,0,1,2,2.5,4} (hence all permutations and duplicates) is fed to each '
             'aggregate in every grouping and compared with the textbook definition in Fractions; criteria functions are '
             'compared with an independent criteria interpreter and wildcard matcher over all criteria of the three forms; '
-            'each error code is placed at each position.',
+            'each error code is placed at each position. Whole-number arguments spelled as floats must behave as the integer, and all functions of the family are evaluated on shared arguments in one pristine process in both orders, each outcome bit-identical to the same formula as the only evaluation of a pristine process (no state shared between sibling functions).',
             'Trusted: the Fraction reference statistics and the recursive wildcard matcher. MODE on multimodal lists, COUNT '
             'of non-numeric items, criteria given as numbers are not demanded.', 'DESIGN.md §5 C11'),
     'C12': ('exhaustive enumeration of truth-value tuples (length <= 6), condition lists, SWITCH case lists, error '
@@ -110,7 +110,7 @@ CHECKS = {
             'Every short string over an alphabet with ASCII, accented, CJK, space and control characters is sliced with '
             'every count 0..len+5 and negatives; the laws LEFT&RIGHT=s, MID(s,1,n)=LEFT(s,n), LEN(a&b)=LEN(a)+LEN(b), '
             'idempotence and CODE(CHAR(n))=n are evaluated as formulas; SUBSTITUTE is compared with a left-to-right '
-            'occurrence scan.',
+            'occurrence scan. Whole-number arguments spelled as floats must behave as the integer, and all functions of the family are evaluated on shared arguments in one pristine process in both orders, each outcome bit-identical to the same formula as the only evaluation of a pristine process (no state shared between sibling functions).',
             'Trusted: Python slicing/str methods as reference on BMP characters; explicit case table for UPPER/LOWER.',
             'DESIGN.md §5 C15'),
     'C16': ('exhaustive enumeration of deterministic argument grids (dyadic rationals, powers of ten, multiples of pi) '
@@ -119,7 +119,7 @@ CHECKS = {
             'Each elementary function is evaluated on the whole grid as number, numeric text and logical and compared with '
             'the math-module value of its defining function; identities are evaluated on the grid; ATAN2 covers all four '
             'half-axes and the origin; RAND/RANDBETWEEN run under a replaced random source whose every answer is '
-            'enumerated.',
+            'enumerated. Whole-number arguments spelled as floats must behave as the integer, and all functions of the family are evaluated on shared arguments in one pristine process in both orders, each outcome bit-identical to the same formula as the only evaluation of a pristine process (no state shared between sibling functions).',
             'Trusted: stdlib math as reference (rel 1e-9); grids replace the statement\'s "random reals" - nothing is '
             'claimed off-grid.', 'DESIGN.md §5 C16'),
     'C18': ('exhaustive enumeration of position-coded arrays up to 4x4 / 8x8 x all index pairs in -10..size+10 x supply '
@@ -127,15 +127,15 @@ CHECKS = {
             'Because every array element encodes its own position, "never another element" is decidable per case; all '
             '(row, col) pairs including omitted/blank/zero/negative are enumerated for literals, host variables and '
             'ranges; MATCH is compared with a reference on every sorted array of length <= 5/6 over a 5-value pool and '
-            'every text array over a wildcard-bearing pool.',
+            'every text array over a wildcard-bearing pool. Whole-number arguments spelled as floats must behave as the integer, and all functions of the family are evaluated on shared arguments in one pristine process in both orders, each outcome bit-identical to the same formula as the only evaluation of a pristine process (no state shared between sibling functions).',
             'Trusted: reference reading of one-dimensional INDEX forms (either axis accepted).', 'DESIGN.md §5 C18'),
     'C01': ('exhaustive enumeration of token soups, code points, function x arity x typed-argument tuples, truncations, and '
             'of all placements of callback faults (fault enumeration), each parse executed under a deterministic '
             'line-event step budget; ' + K3,
             'All concatenations of <= 3/4 lexemes from an alphabet with one exemplar per lexer token class, every Unicode '
             'code point in five contexts, every documented function at arities 0..3/4 over a pool holding a value of every '
-            'type, every prefix/suffix/deletion of a corpus, and every placement of <= 1/2 misbehaving callbacks (17 '
-            'exception kinds, 10 odd return values) over every callback invocation of 14 templates are parsed; the record '
+            'type, every prefix/suffix/deletion of a corpus, and every placement of <= 1/2 misbehaving callbacks (25 '
+            'exception kinds incl. hostile __str__/__repr__/__eq__/__hash__, 10 odd return values) over every callback invocation of 14 templates, and every placement of 14 things a callback may DO (evaluate on the same or another parser, subscribe chains of listeners, re-subscribe, unsubscribe, rebind; with a 5 s wall-clock alarm against deadlock) are parsed; the record '
             'must be well-formed and the call must finish within 200 000 interpreter line events. Deep nesting (1 500-3 000 '
             'levels of brackets, calls, host lists) and prefix+unit^N repetition families (under a wall-clock alarm, for '
             'stalls below the Python level such as regex backtracking) complete the input space.',
@@ -147,7 +147,7 @@ CHECKS = {
             'Characterising inequalities are checked in exact rationals on every (number, digits) / (number, significance) '
             'pair of the pools; HEX2DEC(DEC2HEX(n)) on every n within 2^12/2^16 of -2^39, 0, 2^39 and all one/two-digit '
             'patterns; DECIMAL(BASE(n,r),r) for every radix 2..36 x n <= 500/5000 and digit-length boundaries; every Roman '
-            'form of every n; out-of-range arguments must give an error within the step budget.',
+            'form of every n; out-of-range arguments must give an error within the step budget. Whole-number arguments spelled as floats must behave as the integer, and all functions of the family are evaluated on shared arguments in one pristine process in both orders, each outcome bit-identical to the same formula as the only evaluation of a pristine process (no state shared between sibling functions).',
             'Trusted: Fraction arithmetic, two independent Roman evaluators. The 2^40 hex range is boundary-exhaustive '
             'only.', 'DESIGN.md §5 C17'),
     'C02': ('explicit-state exploration of operation histories on a real parser with a differential oracle (fresh parser '
@@ -168,9 +168,9 @@ CHECKS = {
             'evaluations interposed at every callback invocation and of binding histories on sibling parsers; ' + K2,
             'For each ordered pair of formulas every schedule with <= 1 preemption (all pairs), <= 2 (selected pairs) and <= '
             '3 (two pairs, thorough) over ~150-350 scheduling points is executed on real threads and each outcome compared '
-            'with the solo outcome; replaying a prefix must reproduce the recorded points (divergence is a hard error). '
-            'Nested evaluation is interposed at every callback invocation of 7 outer templates for 10 inner formulas on a '
-            'pre-built parser, a parser built in the callback and the same parser, to depth 2.',
+            'with the solo outcome (the two parsers carry DIFFERENT bindings, so an evaluation that reaches the other parser shows); the <= 1 preemption space of 3 pairs is also explored with every execution as the first evaluations of a pristine process (fork server), so that one-time initialisation happens under the scheduler; replaying a prefix must reproduce the recorded points (divergence is a hard error). '
+            'Nested evaluation is interposed at every callback invocation, every pair of invocations and all invocations of 10 outer templates for 10 inner formulas on a '
+            'pre-built parser, a parser built in the callback and the same parser (each with bindings of its own), to depth 2; binding histories on parser A are observed from parser B, each history in a pristine process.',
             'Trusted: sys.settrace line events in hotxlfp files + ply lexer entry points as the scheduling points (an update '
             'lost inside one source line is outside the model); the baton scheduler (one semaphore per thread).',
             'DESIGN.md §5 C03'),
@@ -180,7 +180,7 @@ CHECKS = {
             'The conversion has two hard-coded epoch adjustments; only a sweep of all days exposes single-day breaks. Round '
             'trip, strict monotonicity, the Excel-1900 serial from 1 March 1900 on, day offsets and the agreement of '
             'DATEVALUE / N / DAYS / comparisons are checked for every day (thorough) or for the boundary years plus the '
-            'month/year boundaries of every year (quick).',
+            'month/year boundaries of every year (quick). Every formula binding a date-time with a time of day is also evaluated with the values delivered by the cell listener (identical outcome demanded), and instants are compared with whole-day plain numbers.',
             'Trusted: datetime.date ordinals as the calendar. Before 1 March 1900 only round trip and monotonicity are '
             'demanded. Millisecond instants are covered on a grid, not exhaustively.', 'DESIGN.md §5 C13'),
     'C14': ('exhaustive calendar sweep of (y,m,d), all 86400 (h,m,s), all ordered date pairs inside boundary windows, all '
@@ -189,7 +189,7 @@ CHECKS = {
             'YEAR/MONTH/DAY/WEEKDAY for every calendar day (thorough), HOUR/MINUTE/SECOND for every time of day, DAYS and '
             'DATEDIF (d, m, y, ym) for every ordered pair inside windows around 1900, 2000, 2100 and for day+delta over '
             'boundary years, EDATE for every offset in the stated range from six starts and small offsets from every day '
-            'of the boundary years.',
+            'of the boundary years. Whole-number arguments spelled as floats must behave as the integer, and all functions of the family are evaluated on shared arguments in one pristine process in both orders, each outcome bit-identical to the same formula as the only evaluation of a pristine process (no state shared between sibling functions).',
             'Trusted: datetime.date arithmetic and the stated definitions of whole months/years. DATEDIF md/yd and '
             'text/fractional arguments are not demanded.', 'DESIGN.md §5 C14'),
 }
